@@ -410,6 +410,54 @@ func normSubs(s []uSub) []uSub {
 	return out
 }
 
+// c18ReuseExec: a list that was already serialised once is modified through the API (policy part contents
+// replaced by longer ones) and serialised again; all lengths must again be computed from the content.
+func c18ReuseExec(c *core.Ctx, in c18Msg) {
+	fail := func(k, w string) { c.FailCase("reuse|"+k, w, "reuse", in) }
+	var first, second []byte
+	var err error
+	grown := make([]uSub, len(in.Subs))
+	pi := core.Try(func() {
+		list, e := libSubLists(in.Subs)
+		if e != nil {
+			err = e
+			return
+		}
+		first, err = list.MarshalBinary()
+		if err != nil {
+			return
+		}
+		for si := range list {
+			grown[si] = uSub{Mcc: in.Subs[si].Mcc, Mnc: in.Subs[si].Mnc}
+			for ii := range list[si].UEPolicySectionManagementSubListContents {
+				gi := uIns{Upsc: in.Subs[si].Ins[ii].Upsc}
+				for pi := range list[si].UEPolicySectionManagementSubListContents[ii].UEPolicySectionContents {
+					p := in.Subs[si].Ins[ii].Parts[pi]
+					p.Len += 5
+					gi.Parts = append(gi.Parts, p)
+					list[si].UEPolicySectionManagementSubListContents[ii].UEPolicySectionContents[pi].SetPartContent(partContent(p, si*100+ii*10+pi))
+				}
+				grown[si].Ins = append(grown[si].Ins, gi)
+			}
+		}
+		second, err = list.MarshalBinary()
+	})
+	if pi != nil {
+		fail(pi.Key(), "panics: "+pi.Msg)
+		return
+	}
+	if err != nil {
+		fail("error", err.Error())
+		return
+	}
+	if want := refSubLists(in.Subs); !bytes.Equal(first, want) {
+		return // reported by the plain round trip
+	}
+	if want := refSubLists(grown); !bytes.Equal(second, want) {
+		fail("stale-length-after-content-change", fmt.Sprintf("after replacing the part contents through SetPartContent the list serialises to %x; with lengths computed from content it is %x", clip(second), clip(want)))
+	}
+}
+
 func c18RawExec(c *core.Ctx, in c18Raw) {
 	data := unhex(in.Hex)
 	pi := core.Try(func() {
@@ -519,6 +567,11 @@ func c18Run(c *core.Ctx) {
 				msg(c18Msg{Kind: "command", PTI: byte(i1), Subs: []uSub{{pl[0], pl[1], is1}}, Classmark: cm})
 				if cm < 0 {
 					msg(c18Msg{Kind: "list", Subs: []uSub{{pl[0], pl[1], is1}}, Classmark: -1})
+					rin := c18Msg{Kind: "list-reuse", Subs: []uSub{{pl[0], pl[1], is1}}, Classmark: -1}
+					if c.Begin("reuse", "UePolicyContainer", rin) {
+						c18ReuseExec(c, rin)
+						n++
+					}
 				}
 				for i2, is2 := range insShapes {
 					if !thorough && (i1+i2+pi)%4 != 0 {
@@ -678,6 +731,7 @@ func c18Run(c *core.Ctx) {
 func init() {
 	core.RegisterKind("C18", "msg", c18MsgExec)
 	core.RegisterKind("C18", "raw", c18RawExec)
+	core.RegisterKind("C18", "reuse", c18ReuseExec)
 	core.RegisterKind("C18", "plmn", c18PlmnExec)
 	core.RegisterProp(&core.PropSpec{
 		ID: "C18", Level: "exploration", Run: c18Run,
@@ -687,7 +741,7 @@ func init() {
 			if tier == "thorough" {
 				l = "7"
 			}
-			return "totality: every byte string of length <= " + l + " over a 12-value alphabet into the six parsers (delivery message, section-management list content, result content, sub-list contents, section contents, sub-result contents), all 256 message types, and the <=2-mutation neighbourhood of valid encodings of every message kind; round trip: command messages with 0..2 sublists x 0..2 instructions x 0..2 policy parts (content lengths 0,1,2,300) with and without classmark, complete with every PTI, reject with 0..2 sub-results x 0..2 results, nested lists alone, all built through the API only; PLMN: every MCC 100..999 x every MNC 10..999. Oracle: no panic; encoded bytes equal a reference encoder (every length field = length of what follows, PLMN per TS 24.008 10.5.1.3 as produced by nasConvert.PlmnIDToNas); decode(encode(m)) yields the same structure."
+			return "totality: every byte string of length <= " + l + " over a 12-value alphabet into the six parsers (delivery message, section-management list content, result content, sub-list contents, section contents, sub-result contents), all 256 message types, and the <=2-mutation neighbourhood of valid encodings of every message kind; round trip: command messages with 0..2 sublists x 0..2 instructions x 0..2 policy parts (content lengths 0,1,2,300) with and without classmark, complete with every PTI, reject with 0..2 sub-results x 0..2 results, nested lists alone, all built through the API only, and lists serialised again after their part contents were replaced through the API; PLMN: every MCC 100..999 x every MNC 10..999. Oracle: no panic; encoded bytes equal a reference encoder (every length field = length of what follows, PLMN per TS 24.008 10.5.1.3 as produced by nasConvert.PlmnIDToNas); decode(encode(m)) yields the same structure."
 		},
 		Assumptions: []string{"result causes are normalised to 'protocol error, unspecified' by the encoder itself"},
 		Finish:      func(m *core.Merged, cov map[string]any) { cov["distinct_nontrivial"] = m.Counters["evaluations"] },
